@@ -28,6 +28,15 @@ def stepLine (s : State Float) : List String → State Float × String
   | ["tell", k, v] => match k.toNat?, parseF v with
     | some k, some v => let s' := tell s k v; (s', "ok " ++ obs s')
     | _, _ => (s, "bad-op")
+  | ["tell_many", ks, vs] =>
+    -- `BaseLearner.tell_many`: the pairs are told one by one, in order (repeated and known seeds included)
+    match parseNats ks, (vs.splitOn ",").mapM parseF with
+    | some ks, some vs =>
+      if ks.length = vs.length then
+        let s' := (ks.zip vs).foldl (fun s kv => tell s kv.1 kv.2) s
+        (s', "ok " ++ obs s')
+      else (s, "bad-op")
+    | _, _ => (s, "bad-op")
   | ["tell_pending", k] => match k.toNat? with
     | some k => let s' := tellPending s k; (s', "ok " ++ obs s')
     | none => (s, "bad-op")
